@@ -333,6 +333,34 @@ var (
 	strType    = reflect.TypeOf("")
 )
 
+// ExtT is registered with SelfExt under tag 7 on the decoding handle: an extension with that tag met
+// while decoding into an interface{} is decoded by a side Decoder from the extension's payload bytes
+type ExtT struct {
+	S  string
+	B  []byte
+	M  map[string]string
+	Ms map[string]struct{ Q string }
+	L  []string
+}
+
+var extTType = reflect.TypeOf(ExtT{})
+
+const extTTag = 7
+
+type extSetter interface {
+	SetExt(rt reflect.Type, tag uint64, ext codec.Ext) error
+}
+
+func randExtT(r *vh.Rng, vo vh.ValOpts) ExtT {
+	x := ExtT{S: vh.RandString(r, vo), B: r.Bytes(randLen(r)), M: map[string]string{}, Ms: map[string]struct{ Q string }{}}
+	for i := r.Intn(3); i > 0; i-- {
+		x.M[keyString(r, vo)] = vh.RandString(r, vo)
+		x.Ms[keyString(r, vo)] = struct{ Q string }{vh.RandString(r, vo)}
+		x.L = append(x.L, vh.RandString(r, vo))
+	}
+	return x
+}
+
 func hasExtData(format string) bool { return format == "msgpack" || format == "binc" || format == "simple" }
 
 // randDyn builds a random schema-less tree for an interface{} slot.
@@ -354,8 +382,11 @@ func randDyn(r *vh.Rng, format string, vo vh.ValOpts, depth int) interface{} {
 		}
 		return r.Bool()
 	case 5:
+		if hasExtData(format) && r.Bool() {
+			return codec.RawExt{Tag: extTTag, Data: mustEncode(format, nil, randExtT(r, vo))}
+		}
 		if hasExtData(format) {
-			return codec.RawExt{Tag: uint64(1 + r.Intn(120)), Data: r.Bytes(1 + randLen(r))}
+			return codec.RawExt{Tag: uint64(10 + r.Intn(110)), Data: r.Bytes(1 + randLen(r))}
 		}
 		if format == "cbor" {
 			return codec.RawExt{Tag: uint64(300 + r.Intn(100)), Value: vh.RandString(r, vo)}
@@ -517,14 +548,14 @@ func randSource(r *vh.Rng, format string, t reflect.Type, vo vh.ValOpts) reflect
 	}
 	for _, name := range []string{"E"} {
 		if f := v.FieldByName(name); f.IsValid() {
-			f.Set(reflect.ValueOf(codec.RawExt{Tag: uint64(1 + r.Intn(120)), Data: r.Bytes(1 + randLen(r))}))
+			f.Set(reflect.ValueOf(codec.RawExt{Tag: uint64(10 + r.Intn(110)), Data: r.Bytes(1 + randLen(r))}))
 		}
 	}
 	if f := v.FieldByName("Es"); f.IsValid() {
 		n := r.Intn(3)
 		s := reflect.MakeSlice(f.Type(), n, n)
 		for i := 0; i < n; i++ {
-			s.Index(i).Set(reflect.ValueOf(codec.RawExt{Tag: uint64(1 + r.Intn(120)), Data: r.Bytes(1 + randLen(r))}))
+			s.Index(i).Set(reflect.ValueOf(codec.RawExt{Tag: uint64(10 + r.Intn(110)), Data: r.Bytes(1 + randLen(r))}))
 		}
 		f.Set(s)
 	}
@@ -544,6 +575,7 @@ type leaf struct {
 	saved   string // private copy of the content
 	input   bool   // observed inside the input buffer
 	mapkey  bool
+	side    bool // decoded by the side Decoder of a SelfExt extension
 }
 
 func (l *leaf) ptr() unsafe.Pointer {
@@ -572,6 +604,7 @@ type walker struct {
 	// msgpack without WriteExt / RawToString decodes a str in an interface{} as []byte; as the key of
 	// a map[interface{}]... it is then turned into a string by kMap's own path
 	ifaceKeyIsBytes bool
+	side            int
 }
 
 // map[string]T types decoded by the generated fast paths (keys through detach2Str), not by kMap
@@ -588,7 +621,10 @@ func fastpathStrMap(t reflect.Type) bool {
 }
 
 func (w *walker) add(path, flow, tag string, isStr bool, s string, b []byte, mapkey bool) {
-	l := &leaf{path: path, flow: flow, flowTag: tag, isStr: isStr, s: s, b: b, mapkey: mapkey}
+	l := &leaf{path: path, flow: flow, flowTag: tag, isStr: isStr, s: s, b: b, mapkey: mapkey, side: w.side > 0}
+	if l.side {
+		l.flowTag = "side-" + tag
+	}
 	l.saved = strings.Clone(l.current())
 	w.leaves = append(w.leaves, l)
 }
@@ -617,6 +653,14 @@ func (w *walker) walk(v reflect.Value, path string, dyn, mapkey, statickey bool,
 		w.walk(reflect.ValueOf(re.Value), path+".Value", true, false, false, depth+1)
 		return
 	case t == vh.TimeType:
+		return
+	case t == extTType:
+		// typed destination of the side Decoder: its leaves are typed flows, whatever led here
+		w.side++
+		for i := 0; i < t.NumField(); i++ {
+			w.walk(v.Field(i), path+"."+t.Field(i).Name, false, false, false, depth+1)
+		}
+		w.side--
 		return
 	}
 	switch t.Kind() {
@@ -754,7 +798,7 @@ type acase struct {
 	input  bool
 }
 
-func apiStream(r *vh.Rng, n int, acases map[string]int, rcases map[string]int, sum *vh.Summary) {
+func apiStream(r *vh.Rng, n int, acases, rcases, scases map[string]int, sum *vh.Summary) {
 	for i := 0; i < n; i++ {
 		format := vh.Formats[r.Intn(len(vh.Formats))]
 		tr := randTransport(r)
@@ -781,6 +825,11 @@ func apiStream(r *vh.Rng, n int, acases map[string]int, rcases map[string]int, s
 		cj["input"] = vh.Hex(first)
 		pristine := append([]byte(nil), stream...)
 		h := vh.NewHandle(format, do)
+		if hasExtData(format) {
+			if err := h.(extSetter).SetExt(extTType, extTTag, codec.SelfExt); err != nil {
+				panic(err)
+			}
+		}
 		d := newDecoder(tr, h, stream)
 		dst := reflect.New(ts.dst)
 		if err := d.Decode(dst.Interface()); err != nil {
@@ -810,6 +859,9 @@ func apiStream(r *vh.Rng, n int, acases map[string]int, rcases map[string]int, s
 			}
 			if l.flow == "FRaw" {
 				rcases[fmt.Sprintf("%s %s %s %s", vh.CoqBool(zc), tr.coq(), vh.CoqZ(int64(l.n())), vh.CoqBool(l.input))]++
+			} else if l.side {
+				scases[fmt.Sprintf("%s %s %s %s %s %s %s %s", vh.CoqBool(zc), vh.CoqBool(it), tr.coq(), coqFormat(format), l.flow, "KReadxb",
+					vh.CoqZ(int64(l.n())), vh.CoqBool(l.input))]++
 			} else {
 				k := srcKind(format, eo, l)
 				acases[fmt.Sprintf("%s %s %s %s %s %s %s %s", vh.CoqBool(zc), vh.CoqBool(it), tr.coq(), coqFormat(format), l.flow, k,
@@ -930,10 +982,15 @@ func main() {
 	cv := vh.NewCases(*cases, "From Coq Require Import List NArith ZArith.\nFrom Verif Require Import C13.Model C13.Corr.\nImport ListNotations.", "case", "mismatches", 60)
 	id := 0
 	unitStream(*cases, cv, &id, sum)
-	acases, rcases := map[string]int{}, map[string]int{}
-	apiStream(r.Fork(), *nAPI, acases, rcases, sum)
+	acases, rcases, scases := map[string]int{}, map[string]int{}, map[string]int{}
+	apiStream(r.Fork(), *nAPI, acases, rcases, scases, sum)
 	for _, k := range sortedKeys(acases) {
 		cv.Add(fmt.Sprintf("ACase %d %s", id, k))
+		id++
+		sum.ModelCases++
+	}
+	for _, k := range sortedKeys(scases) {
+		cv.Add(fmt.Sprintf("SCase %d %s", id, k))
 		id++
 		sum.ModelCases++
 	}
